@@ -272,7 +272,8 @@ func replayCmd(id, file string) int {
 		fmt.Fprintln(os.Stderr, err)
 		return 2
 	}
-	ok, res := replayOne(bin, id, "quick", abs, work, openClasses(id), cfg.Race)
+	// a replay runs the case strictly: no known-finding class is constructed away
+	ok, res := replayOne(bin, id, "quick", abs, work, nil, cfg.Race)
 	os.Stdout.Write(res.out)
 	if ok {
 		return 0
@@ -282,6 +283,16 @@ func replayCmd(id, file string) int {
 	}
 	fmt.Printf("VIOLATION property=%s replay=%s\n", id, abs)
 	return 1
+}
+
+func without(list []string, x string) []string {
+	out := []string{}
+	for _, e := range list {
+		if e != x {
+			out = append(out, e)
+		}
+	}
+	return out
 }
 
 func openClasses(id string) []string {
@@ -382,7 +393,12 @@ func check(id, tier string) int {
 		w := filepath.Join(verifRoot, f.Witness)
 		if f.Status == "open" {
 			openWitness[w] = true
-			okRun, res := replayOne(bin, id, tier, w, work, open, cfg.Race)
+			if _, err := os.Stat(w); err != nil {
+				inconclusive = append(inconclusive, "witness of "+f.ID+" is missing: "+f.Witness)
+				continue
+			}
+			// the witness runs with its own class NOT constructed away
+			okRun, res := replayOne(bin, id, tier, w, work, without(open, f.ID), cfg.Race)
 			replayed++
 			if res.timedOut && !strings.Contains(f.What, "hang") {
 				inconclusive = append(inconclusive, "witness of "+f.ID+" timed out")
